@@ -449,6 +449,12 @@ func oracle(steps []Step, drained bool) []Failure {
 			c.reqIdx, c.first, c.snapPhase = st.ReqIdx, true, st.ReqIdx == 0
 			c.delivered, c.haveStart, c.blocked, c.subStep = nil, false, false, i
 			c.eosHere, c.dupSeen, c.behindSnap = false, false, false
+			// a new subscription starts a new handler: snapshot events collected so far by an unfinished
+			// snapshot are dropped, and a materializer at index 0 holds no rows
+			c.pend = nil
+			if st.ReqIdx == 0 {
+				c.exp = nil
+			}
 		case "unsub":
 			if c := clients[st.C]; c != nil {
 				c.subscribed = false
@@ -531,12 +537,17 @@ func oracle(steps []Step, drained bool) []Failure {
 				}
 				c.lastIdx = st.CIdx
 				if want := contentAt(c.ts, st.CIdx); !sameRows(want, st.View) {
-					cause := viewCause(c, st.View, want, st.CIdx)
+					// first the open finding: the snapshot is exactly a LATER recorded result of a query whose
+					// index was seen not to advance (whatever the spelling of the node names)
+					cause := "unknown"
 					for _, h := range hist[c.ts] {
 						if cause == "unknown" && behind[c.ts] && h.idx > st.CIdx && sameRows(h.rows, st.View) {
 							cause = "query-index-behind-content"
 							c.behindSnap = true
 						}
+					}
+					if cause == "unknown" {
+						cause = viewCause(c, st.View, want, st.CIdx)
 					}
 					fail(st.C, "view-mismatch", cause, fmt.Sprintf("after snapshot@%d view %v, query at that index %v", st.CIdx, st.View, want))
 				}
